@@ -683,6 +683,9 @@ class ObjectType(VersionedOntologyElement):
     @classmethod
     def create_from_xml(cls, type_element, ontology):
         try:
+            prefix_radix = type_element.get('prefix-radix')
+            if prefix_radix is not None:
+                prefix_radix = int(prefix_radix)
             return cls(
                 ontology,
                 type_element.attrib['name'],
@@ -692,7 +695,7 @@ class ObjectType(VersionedOntologyElement):
                 type_element.attrib['data-type'],
                 type_element.get('unit-name'),
                 type_element.get('unit-symbol'),
-                type_element.get('prefix-radix'),
+                prefix_radix,
                 type_element.get('compress', 'false') == 'true',
                 type_element.get('xref'),
                 type_element.get('fuzzy-matching'),
@@ -704,6 +707,12 @@ class ObjectType(VersionedOntologyElement):
                 "Failed to instantiate an object type from the following definition:\n" +
                 etree.tostring(type_element, pretty_print=True, encoding='unicode') +
                 "\nMissing attribute: " + str(e)
+            )
+        except ValueError:
+            raise EDXMLOntologyValidationError(
+                "Failed to instantiate an object type from the following definition:\n" +
+                etree.tostring(type_element, pretty_print=True, encoding='unicode') +
+                "\nThe prefix radix is not an integer."
             )
 
     def __cmp__(self, other):
@@ -734,8 +743,11 @@ class ObjectType(VersionedOntologyElement):
         # be changed freely between versions. We only need to know if they changed.
 
         for attr in ['display-name-singular', 'display-name-plural', 'description', 'compress', 'fuzzy-matching',
-                     'xref', 'unit-name', 'unit-symbol', 'prefix-radix', 'regex-soft']:
+                     'xref', 'unit-name', 'unit-symbol', 'regex-soft']:
             equal &= old.__attr[attr] == new.__attr[attr]
+
+        # An omitted prefix radix is equivalent to radix 10.
+        equal &= old.get_prefix_radix() == new.get_prefix_radix()
 
         # Check for illegal upgrade paths:
 
